@@ -898,7 +898,7 @@ def c3_promotions(fb, rep):
         if len(pl_) < 4:
             rep.broken(clause, tag + ': unexpected parameter list')
             continue
-        params = {'mask': pl_[1]['id']}
+        params = {'mask': pl_[1]['id'], 'allprom': pl_[3]['id']}
         n_delta, n_allprom = pl_[2]['n'], pl_[3]['n']
         always, under = set(), set()
         n_emit = 0
@@ -923,8 +923,14 @@ def c3_promotions(fb, rep):
             rep.ob(clause, 'K10 from/to agreement', '%s: the %s move goes to a square of the %s mask and starts delta away from it' % (
                 tag, ('%s-promotion' % LETTER[(pv - 1) % 6 + 1]) if pv else 'plain', 'promotion' if pv else 'remaining'), ok_from and src_ok and src_id == want_id, R.site(f, e),
                 'from %s, to %s' % (ctext(frm), ctext(to)), f.sname)
-            guards = G.guards_of(f, set(f.blocks), b)
-            g_all = any(g == n_allprom for g in guards)
+            # under the all-promotions flag: unreachable with the flag false, reachable with it true (however it is tested)
+            ap_id = params.get('allprom')
+            if ap_id is not None:
+                flag = lambda v_: (lambda t_: ('v', v_) if t_.get('k') == 'var' and t_.get('id') == ap_id else None)
+                g_all = G.excluded_under(f, b, flag(0)) and not G.excluded_under(f, b, flag(1))
+            else:
+                guards = G.guards_of(f, set(f.blocks), b)
+                g_all = any(g == n_allprom for g in guards)
             if pv:
                 (under if g_all else always).add((colour_of(pv), LETTER[(pv - 1) % 6 + 1]))
         rep.ob(clause, 'K11 constant agreement', '%s: queen and knight promotions always, rook and bishop under allPromotions, all of the mover\'s colour' % tag,
